@@ -422,7 +422,19 @@ func C27(c *Ctx) {
 			continue
 		}
 		res := Calls(fn, false, Named("pd/tso.(*Allocator).Reserve", "pd/core.(*IDAllocator).Reserve"))
-		per := Calls(fn, false, Named("pd/server.(*Service).persistAllocatorState"))
+		// the checkpoint write: storage.SaveAllocatorState itself, or a helper (persistAllocatorState)
+		// whose success implies it succeeded; `no storage configured` satisfies the obligation
+		noStorage := func(f *ssa.Function) edgeSet {
+			out := nilFieldEdges(f, "pd/server.Service", "storage")
+			if len(f.Params) > 0 {
+				for _, e := range NilEdges(f, paramSet(f, 0)) {
+					out[e.Nil] = true
+				}
+			}
+			return out
+		}
+		saveM := Named("(pd/storage.Store).SaveAllocatorState")
+		per := verifySites(c, fn, saveM, 1, noStorage)
 		c.Decide(len(res) == 1 && len(per) == 1, r2, key(fn, "has:Reserve+persist"), fn.Pos(), 2, "reserve and persist present", "Reserve / persistAllocatorState call missing")
 		for i, p := range per {
 			succOK(c, r2, key(fn, fmt.Sprintf("persist[%d]<-ok(Reserve)", i+1)), fn, res, "Reserve", p.(ssa.Instruction), "persistAllocatorState")
@@ -431,17 +443,29 @@ func C27(c *Ctx) {
 			if IsNilConst(RetVal(r, 0)) {
 				continue
 			}
-			succOK(c, r2, key(fn, fmt.Sprintf("reply[%d]<-ok(persist)", i+1)), fn, per, "persistAllocatorState", r, "reply")
+			succOK(c, r2, key(fn, fmt.Sprintf("reply[%d]<-ok(persist)", i+1)), fn, per, "persistAllocatorState", r, "reply", noStorage(fn))
 		}
-	}
-	if fn := c.Fn("pd/server", "Service.persistAllocatorState"); fn != nil {
-		sv := need(c, r2, fn, false, "SaveAllocatorState", Named("(pd/storage.Store).SaveAllocatorState"), 1)
-		for _, s := range sv {
-			a := s.Common().Args
-			ok1 := isCallTo(a[0], "pd/core.(*IDAllocator).Current")
-			ok2 := isCallTo(a[1], "pd/tso.(*Allocator).Current")
-			c.Decide(ok1 && ok2, r2, key(fn, "SaveAllocatorState(ids.Current,tso.Current)"), s.Pos(), 2, "both counters are checkpointed, in order", "SaveAllocatorState is not given (ids.Current(), tso.Current())")
-			errPropagated(c, r2, key(fn, "SaveAllocatorState#error-propagated"), fn, s)
+		// the values checkpointed are the two counters' Current(), sampled after the reservation
+		for _, p := range per {
+			g, sv := fn, []ssa.CallInstruction{p}
+			if !saveM(p.Common()) {
+				g = StaticFn(p.Common())
+				sv = Calls(g, false, saveM)
+			}
+			for _, s := range sv {
+				a := s.Common().Args
+				ok1 := isCallTo(a[0], "pd/core.(*IDAllocator).Current")
+				ok2 := isCallTo(a[1], "pd/tso.(*Allocator).Current")
+				c.Decide(ok1 && ok2, r2, key(fn, "SaveAllocatorState(ids.Current,tso.Current)"), s.Pos(), 2, "both counters are checkpointed, in order", "SaveAllocatorState is not given (ids.Current(), tso.Current())")
+				if g == fn {
+					for j, cu := range Calls(fn, false, Named("pd/core.(*IDAllocator).Current", "pd/tso.(*Allocator).Current")) {
+						okp, n := MustPrecede(fn, cu.(ssa.Instruction), instrs(res))
+						c.Decide(okp, r2, key(fn, fmt.Sprintf("Current[%d]<-Reserve", j+1)), cu.Pos(), n, "the checkpointed value is sampled after the reservation", "the checkpointed counter is sampled before the reservation it must cover")
+					}
+				} else {
+					errPropagated(c, r2, key(g, "SaveAllocatorState#error-propagated"), g, s)
+				}
+			}
 		}
 	}
 
@@ -479,7 +503,7 @@ func C27(c *Ctx) {
 			}
 		}
 		callerOrdered := false
-		if pf := c.FnOpt("pd/server", "Service.persistAllocatorState"); pf != nil {
+		for _, pf := range callersOfSave(c) {
 			pls := ComputeLockSets(pf)
 			for _, s := range Calls(pf, false, Named("(pd/storage.Store).SaveAllocatorState")) {
 				if len(pls.HeldAt(s.(ssa.Instruction))) > 0 {
@@ -516,22 +540,66 @@ func C27(c *Ctx) {
 		}
 	}
 	if fn := c.Fn("pd/storage", "ResolveAllocatorStarts"); fn != nil {
-		incs, maxes := 0, 0
-		AllInstrs(fn, false, func(in ssa.Instruction) {
-			if bo, ok := in.(*ssa.BinOp); ok {
-				if bo.Op == token.ADD {
-					if k, ok := ConstInt(bo.Y); ok && k == 1 {
-						incs++
-					}
+		// decided by term evaluation: in every order scenario of (checkpoint, start, MaxUint64)
+		// each returned start is max(start, checkpoint+1), saturating at MaxUint64 – however
+		// the selection is spelled (if/else, builtin max, a helper)
+		type scen struct {
+			name  string
+			facts []Fact
+			want  Term
+		}
+		ck, st, mx := "ckpt", "start", "MAX"
+		scens := []scen{
+			{"checkpoint == start < Max", []Fact{{ck, 0, st, 0, 0}, {ck, 0, mx, 0, -1}, {st, 0, mx, 0, -1}}, Term{ck, 1, true}},
+			{"start < checkpoint < Max", []Fact{{ck, 0, st, 0, 1}, {ck, 0, mx, 0, -1}, {st, 0, mx, 0, -1}}, Term{ck, 1, true}},
+			{"checkpoint+1 == start", []Fact{{ck, 1, st, 0, 0}, {ck, 0, mx, 0, -1}}, Term{st, 0, true}},
+			{"checkpoint+1 < start", []Fact{{ck, 1, st, 0, -1}, {ck, 0, mx, 0, -1}}, Term{st, 0, true}},
+			{"start < checkpoint == Max", []Fact{{ck, 0, mx, 0, 0}, {ck, 0, st, 0, 1}, {st, 0, mx, 0, -1}}, Term{ck, 0, true}},
+			{"start == checkpoint == Max", []Fact{{ck, 0, mx, 0, 0}, {ck, 0, st, 0, 0}, {st, 0, mx, 0, 0}}, Term{ck, 0, true}},
+		}
+		flds := []string{"IDCurrent", "TSCurrent"}
+		bad, n := "", 0
+		for ri, fld := range flds {
+			if ri >= len(fn.Params) {
+				break
+			}
+			atom := func(v ssa.Value) string {
+				if v == fn.Params[ri] {
+					return st
 				}
-				if bo.Op == token.GTR {
-					if _, isP := bo.Y.(*ssa.Parameter); isP {
-						maxes++
+				if isFieldLoad(v, "pd/storage.AllocatorState", fld) {
+					return ck
+				}
+				if k, ok := v.(*ssa.Const); ok && k.Value != nil && k.Value.ExactString() == "18446744073709551615" {
+					return mx
+				}
+				return ""
+			}
+			for _, sc := range scens {
+				env := &TermEnv{Atom: atom, Facts: sc.facts, Depth: 2}
+				rets, complete := env.Returns(fn)
+				n += env.Visited
+				if !complete || len(rets) == 0 {
+					if bad == "" {
+						bad = "the function has a loop or no return: the selection cannot be evaluated"
+					}
+					continue
+				}
+				for _, rs := range rets {
+					got := rs[ri]
+					okv := got.Known && got == sc.want
+					if !okv && got.Known {
+						if sg, known := env.Cmp(got, sc.want); known && sg == 0 {
+							okv = true
+						}
+					}
+					if !okv && bad == "" {
+						bad = fmt.Sprintf("%s start when %s: returns %s, expected %s", strings.TrimSuffix(fld, "Current"), sc.name, got, sc.want)
 					}
 				}
 			}
-		})
-		c.Decide(incs == 2 && maxes == 2, r4, key(fn, "start=max(start,checkpoint+1)x2"), fn.Pos(), incs+maxes+1, "both starts are raised to checkpoint+1", fmt.Sprintf("expected two checkpoint+1 computations and two max comparisons, found %d and %d", incs, maxes))
+		}
+		c.Decide(bad == "", r4, key(fn, "start=max(start,checkpoint+1)x2"), fn.Pos(), n+1, "both starts are max(start, checkpoint+1), saturating (6 order scenarios × 2 counters evaluated)", "ResolveAllocatorStarts: "+bad)
 	}
 }
 
@@ -611,5 +679,19 @@ func fieldMapUpdates(fn *ssa.Function, owner, field string) []ssa.Instruction {
 			out = append(out, in)
 		}
 	})
+	return out
+}
+
+// callersOfSave: the pd/server functions that call storage.SaveAllocatorState.
+func callersOfSave(c *Ctx) []*ssa.Function {
+	var out []*ssa.Function
+	for _, f := range c.P.ModFuncs {
+		if !strings.HasSuffix(FuncPkgPath(f), "/pd/server") {
+			continue
+		}
+		if len(Calls(f, false, Named("(pd/storage.Store).SaveAllocatorState"))) > 0 {
+			out = append(out, f)
+		}
+	}
 	return out
 }
